@@ -31,6 +31,10 @@ type c20In struct {
 	Compress, Ext, MaxReq, MaxResp, MaxExt, Upload, MaxUpload, Proof, ExtraProxy, Introspect, Sticky, OAuth bool
 	Cors, NotFound, Prefix                                                                                   bool
 	Echo                                                                                                     []string `json:"echo,omitempty"`
+	// ExtHow: how Server.SetExternalLocation was driven (vgirpc.VerifC20ExternalHows); "" = "storage" if Ext else "none".
+	// ExtEarly: configured before NewHttpServer instead of after the other setters.
+	ExtHow                                                                                                   string   `json:"ext_how,omitempty"`
+	ExtEarly                                                                                                 bool     `json:"ext_early,omitempty"`
 	Auth                                                                                                     string   `json:"auth"`
 	NFail                                                                                                    int      `json:"nfail"`
 	Reqs                                                                                                     []c20Req `json:"reqs"`
@@ -133,11 +137,37 @@ func c20RidBoundary() [][]string {
 		{"\u200b"}, {"\u180e"}, {"\ufeff"}, {"\x1c\x1d\x1e\x1f"}}
 }
 
+func c20ExtHow(in c20In) string {
+	if in.ExtHow != "" {
+		return in.ExtHow
+	}
+	if in.Ext {
+		return "storage"
+	}
+	return "none"
+}
+
+// c20ExtClass maps the way the external-location config was set to the model's ext_mode.
+func c20ExtClass(in c20In) string {
+	how := c20ExtHow(in)
+	for _, p := range vgirpc.VerifC20ExternalHows {
+		if p[0] == how {
+			return p[1]
+		}
+	}
+	panic("c20: unknown ext_how " + how)
+}
+
+var c20ExtCoq = map[string]string{"none": "C20.E_none", "resolve": "C20.E_resolve_only", "storage": "C20.E_storage"}
+
 func c20RandCfg(r *rand.Rand, in *c20In) {
 	b := func() bool { return r.Intn(2) == 0 }
 	in.Compress, in.Ext, in.MaxReq, in.MaxResp, in.MaxExt = b(), b(), b(), b(), b()
 	in.Upload, in.MaxUpload, in.Proof, in.ExtraProxy, in.Introspect = b(), b(), b(), b(), b()
 	in.Sticky, in.OAuth = b(), b()
+	in.ExtHow = vgirpc.VerifC20ExternalHows[r.Intn(len(vgirpc.VerifC20ExternalHows))][0]
+	in.Ext = false
+	in.ExtEarly = b()
 	in.Cors = r.Intn(4) != 0
 	in.NotFound, in.Prefix = b(), b()
 	if r.Intn(2) == 0 {
@@ -161,6 +191,20 @@ func c20Gen(r *rand.Rand, n int, tier string) []c20In {
 			hx = append(hx, c20hex(s))
 		}
 		out = append(out, c20In{RidOnly: true, Auth: "none", Reqs: []c20Req{{Kind: "health", RidHex: hx}}})
+	}
+	// 1b. the external-location dimension: every way of driving SetExternalLocation (none / nil / resolve-only
+	// config without a Storage backend / Storage-backed, incl. replacing one by another), set before or after
+	// NewHttpServer, on every route kind and rejection path (413 and 401 included)
+	for _, hw := range vgirpc.VerifC20ExternalHows {
+		for _, early := range []bool{false, true} {
+			in := c20In{ExtHow: hw[0], ExtEarly: early, Compress: early, MaxReq: true, Cors: !early, NotFound: early, Auth: "none"}
+			for _, k := range c20Kinds {
+				in.Reqs = append(in.Reqs, c20Req{Kind: k, RidHex: []string{c20hex("ext-" + k)}, AcceptZstd: true, SessAccept: true})
+			}
+			out = append(out, in)
+		}
+		out = append(out, c20In{ExtHow: hw[0], Cors: true, Auth: "fail", NFail: 1, Reqs: []c20Req{
+			{Kind: "health"}, {Kind: "unary_ok"}, {Kind: "options"}, {Kind: "introspect"}}})
 	}
 	// 2. every route kind x {all toggles off, all on} x every auth mode that matters, CORS on
 	for _, all := range []bool{false, true} {
@@ -218,7 +262,8 @@ func c20Gen(r *rand.Rand, n int, tier string) []c20In {
 // ---------------------------------------------------------------- running
 
 func c20Toggles(in c20In) vgirpc.VerifC20Toggles {
-	return vgirpc.VerifC20Toggles{Compress: in.Compress, Ext: in.Ext, MaxReq: in.MaxReq, MaxResp: in.MaxResp, MaxExt: in.MaxExt,
+	// Ext stays off here: the harness drives SetExternalLocation itself (c20ExtHow)
+	return vgirpc.VerifC20Toggles{Compress: in.Compress, Ext: false, MaxReq: in.MaxReq, MaxResp: in.MaxResp, MaxExt: in.MaxExt,
 		Upload: in.Upload, MaxUpload: in.MaxUpload, Proof: in.Proof, ExtraProxy: in.ExtraProxy, Introspect: in.Introspect,
 		Sticky: in.Sticky, Echo: len(in.Echo) > 0, OAuth: in.OAuth, Auth: in.Auth != "none"}
 }
@@ -242,6 +287,7 @@ func c20Authenticator(mode string) vgirpc.AuthenticateFunc {
 }
 
 type c20Resp struct {
+	Ext     int      `json:"ext_enabled"` // VGI-Externalization-Enabled: 0 absent, 1 "false", 2 "true", 3 anything else
 	Status  int      `json:"status"`
 	Rid     *string  `json:"rid_hex"`
 	Present []string `json:"present"`
@@ -400,6 +446,9 @@ func c20Run(in c20In) CaseOut {
 		}
 		return nil
 	})
+	if in.ExtEarly {
+		vgirpc.VerifC20SetExternal(srv, c20ExtHow(in))
+	}
 	h := vgirpc.NewHttpServer(srv)
 	if in.Prefix {
 		h.SetPrefix("/vgi")
@@ -416,11 +465,14 @@ func c20Run(in c20In) CaseOut {
 	if err := vgirpc.VerifC20Apply(srv, h, c20Toggles(in), echo, auth, nil); err != nil {
 		panic(err)
 	}
+	if !in.ExtEarly {
+		vgirpc.VerifC20SetExternal(srv, c20ExtHow(in))
+	}
 	if in.Cors {
 		h.SetCorsOrigins("https://app.example.com")
 	}
 
-	tags := []string{"serve", "auth-" + in.Auth}
+	tags := []string{"serve", "auth-" + in.Auth, "ext-" + c20ExtClass(in), "exthow-" + c20ExtHow(in)}
 	if in.Cors {
 		tags = append(tags, "cors")
 	}
@@ -457,6 +509,16 @@ func c20Run(in c20In) CaseOut {
 			}
 		}
 		sort.Strings(o.Present)
+		switch vs := res.Header["Vgi-Externalization-Enabled"]; {
+		case len(vs) == 0:
+			o.Ext = 0
+		case len(vs) == 1 && vs[0] == "false":
+			o.Ext = 1
+		case len(vs) == 1 && vs[0] == "true":
+			o.Ext = 2
+		default:
+			o.Ext = 3
+		}
 		if vs, ok := res.Header["Access-Control-Expose-Headers"]; ok {
 			o.HasExp = true
 			o.Expose = vgirpc.VerifC20SplitExpose(strings.Join(vs, ","))
@@ -477,13 +539,13 @@ func c20Run(in c20In) CaseOut {
 		if o.Rid != nil {
 			ridOpt = "(Some " + B(c20unhex(*o.Rid)) + ")"
 		}
-		coqObs = append(coqObs, App("C20.Build_robs", N(uint64(o.Status)), ridOpt, ListOf(o.Present, c20Name), Opt(o.HasExp, ListOf(o.Expose, c20Name))))
+		coqObs = append(coqObs, App("C20.Build_robs", N(uint64(o.Status)), ridOpt, ListOf(o.Present, c20Name), Opt(o.HasExp, ListOf(o.Expose, c20Name)), N(uint64(o.Ext))))
 		tags = append(tags, "kind-"+q.Kind, "status-"+itoa(o.Status), ridTag(vals))
 		if in.Cors && o.Status == 503 && i >= in.NFail {
 			tags = append(tags, "retry-after-under-cors") // violated before fix 846e992
 		}
 	}
-	cfg := App("C20.Build_config", Bool(in.Compress), Bool(in.Ext), Bool(in.MaxReq), Bool(in.MaxResp), Bool(in.MaxExt),
+	cfg := App("C20.Build_config", Bool(in.Compress), c20ExtCoq[c20ExtClass(in)], Bool(in.MaxReq), Bool(in.MaxResp), Bool(in.MaxExt),
 		Bool(in.Upload), Bool(in.MaxUpload), Bool(in.Proof), Bool(in.ExtraProxy), Bool(in.Introspect), Bool(in.Sticky), Bool(in.OAuth),
 		Bool(in.Cors), Bool(in.NotFound), Bool(in.Prefix), ListOf(in.Echo, B), c20AuthCoq[in.Auth])
 	coqIn := App("C20.Serve", cfg, Nat(in.NFail), List(coqReqs))
@@ -535,6 +597,6 @@ func c20Dedup(t []string) []string {
 }
 
 func init() {
-	Register("C20", "boundary X-Request-ID values through resolveRequestID, then every route kind under all-off/all-on configurations, then random lattice points (12 free toggles + CORS/prefix/not-found page/echo names/7 authenticator behaviours, serve-start hook failing for the first 0-2 requests) x 1-4 requests over 20 route/rejection classes x X-Request-ID values (absent, blank, padded with ASCII and Unicode spaces, 128/129 bytes, non-ASCII, invalid UTF-8, two values); every case is non-trivial; distinct = distinct input JSON",
+	Register("C20", "boundary X-Request-ID values through resolveRequestID, then every route kind under all-off/all-on configurations, then every way of driving SetExternalLocation (none / nil / resolve-only config without Storage / Storage-backed / replaced) set before or after NewHttpServer on every route kind, then random lattice points (11 free toggles + 8 external-location set-ups + CORS/prefix/not-found page/echo names/7 authenticator behaviours, serve-start hook failing for the first 0-2 requests) x 1-4 requests over 20 route/rejection classes x X-Request-ID values (absent, blank, padded with ASCII and Unicode spaces, 128/129 bytes, non-ASCII, invalid UTF-8, two values); every case is non-trivial; distinct = distinct input JSON",
 		c20Gen, c20Run)
 }
